@@ -26,7 +26,7 @@ type c11conn struct {
 }
 
 var c11resumeAns = []string{"resumed-same", "resumed-other", "failed", "failed-known-condition", "unexpected", "close"}
-var c11enableAns = []string{"enabled-resume-true", "enabled-resume-false", "failed"}
+var c11enableAns = []string{"enabled-resume-true", "enabled-resume-false", "failed", "unexpected", "close"}
 
 func c11queue(cl *Client) string {
 	if cl.Session == nil || cl.Session.SMState.UnAckQueue == nil {
